@@ -140,6 +140,26 @@ class _Return(Exception):
         self.value = value
 
 
+def _is_generator_function(fn):
+    cached = getattr(fn, '_fd_is_generator', None)
+    if cached is None:
+        cached = False
+        stack = list(getattr(fn, 'body', []))
+        while stack:
+            n = stack.pop()
+            if isinstance(n, (ast.Yield, ast.YieldFrom)):
+                cached = True
+                break
+            if isinstance(n, (ast.FunctionDef, ast.AsyncFunctionDef, ast.Lambda, ast.ClassDef)):
+                continue
+            stack.extend(ast.iter_child_nodes(n))
+        try:
+            fn._fd_is_generator = cached
+        except AttributeError:
+            pass
+    return cached
+
+
 def truth(v):
     """True / False / None (unknown)."""
     if v is UNKNOWN:
@@ -1069,12 +1089,31 @@ class FD:
             bound_self.attrs['__classdef__'] = fn._parent
         self._mods.append(getattr(fn, '_module', None) or (self._mods[-1] if self._mods else None))
         _ACTIVE_FD.append(self)
+        generator = _is_generator_function(fn)
+        if generator:
+            # a generator function is run to exhaustion when it is called and its values handed over as a list (the
+            # way generator expressions and every `for` of this interpreter consume their iterable before the body)
+            env['__yields__'] = []
         try:
             r = self.run(fn.body, env)
         finally:
             _ACTIVE_FD.pop()
             self._mods.pop()
+        if generator:
+            return env['__yields__']
         return None if r is NO_RETURN else r
+
+    def e_Yield(self, e, env):
+        if '__yields__' not in env:
+            raise Inconclusive('fdeval: yield outside a generator function')
+        env['__yields__'].append(self.eval(e.value, env) if e.value is not None else None)
+        return None
+
+    def e_YieldFrom(self, e, env):
+        if '__yields__' not in env:
+            raise Inconclusive('fdeval: yield from outside a generator function')
+        env['__yields__'].extend(self.iterate(self.eval(e.value, env), 'yield from'))
+        return None
 
     def _default(self, d, name):
         """Value of a parameter default; a default the interpreter cannot evaluate (MAIN_REPORT = Report()) is an
